@@ -1315,7 +1315,7 @@ def st_in_loop_case(draw: st.DrawFn, tier: str) -> dict:
 
 
 
-from . import c18_load  # noqa: E402
+from . import c18_load, c18_startup  # noqa: E402
 
 CHECK = Check(
     id="C18",
@@ -1327,7 +1327,8 @@ CHECK = Check(
         "listeners (layer async); the same kind of history with 2-3 real threads, loopback sockets and millisecond sleeps against the "
         "standalone servers (layer standalone, schedule randomised not owned); layer in-loop: server_close() of the standalone object called "
         "from a callback in the server's own event-loop thread (must return or raise, never deadlock); layer stop-under-load: shutdown / cancelled serve_forever / "
-        "cancelled handler scope against one client that keeps the receive buffers filled (must take effect within the data already received); non-trivial = at least two lifecycle operations overlap "
+        "cancelled handler scope against one client that keeps the receive buffers filled (must take effect within the data already received); layer real-startup-race: "
+        "close/shutdown/cancel issued 0-30 loop iterations into server_activate()/serve_forever() of a TCP or UDP server on 1-4 real loopback addresses (no socket descriptor may outlive server_close()); non-trivial = at least two lifecycle operations overlap "
         "in time, or a serve_forever starts after a shutdown returned; distinct = sha1 of the canonical case JSON"
     ),
     layers=[
@@ -1337,6 +1338,7 @@ CHECK = Check(
         Layer("real-listener", st_real_listener_case, run_real_listener_case, {"quick": 600, "thorough": 4000}),
         Layer("in-loop", st_in_loop_case, run_in_loop_case, {"quick": 6, "thorough": 12}, shards=1, case_timeout_s=60.0),
         c18_load.LAYER,
+        c18_startup.LAYER,
     ],
     assumptions=[
         "async layer: listeners are in-memory objects handed out by a backend subclass; everything above them (server, task groups, cancel scopes, locks) is the unmodified library on the real asyncio backend, on a virtual clock",
